@@ -259,11 +259,12 @@ impl CharacterData {
                 .and_then(|bintxt| u64::from_str_radix(bintxt, 2).ok())
             {
                 Some(binval as f64)
-            } else if let Some(octval) = text
+            } else if let Some(octtxt) = text
                 .strip_prefix('0')
-                .and_then(|octtxt| u64::from_str_radix(octtxt, 8).ok())
+                .filter(|octtxt| !octtxt.is_empty() && octtxt.bytes().all(|c| (b'0'..=b'7').contains(&c)))
             {
-                Some(octval as f64)
+                // this is an octal number; if it is too large it must not be reinterpreted as a decimal number
+                u128::from_str_radix(octtxt, 8).ok().map(|octval| octval as f64)
             } else {
                 // normal float conversion
                 text.parse().ok()
